@@ -3,6 +3,8 @@ package c13
 import (
 	"fmt"
 
+	"golang.org/x/text/unicode/norm"
+
 	vu "hv/valuni"
 )
 
@@ -59,7 +61,7 @@ func modelEq(a, b vu.Val, subset, rangeLax bool) bool {
 		if rangeLax {
 			return a.RS == b.RS && a.RE == b.RE
 		}
-		return vu.StructEq(a, b)
+		return structEq(a, b)
 	case vu.VList:
 		if len(a.Elems) != len(b.Elems) {
 			return false
@@ -84,14 +86,16 @@ func modelEq(a, b vu.Val, subset, rangeLax bool) bool {
 	case vu.VSome:
 		return modelEq(*a.Inner, *b.Inner, subset, rangeLax)
 	}
-	return vu.StructEq(a, b)
+	return structEq(a, b)
 }
 
-// composeNFC replaces the non-NFC string of the universe by its precomposed form everywhere.
+// composeNFC is the abstract value of v: both value libraries keep strings in NFC (the VM library
+// always did, the interpreter library since the fix recorded for KF-c13-vm-string-nfc), so two
+// strings denote the same value iff their NFC forms are equal.
 func composeNFC(v vu.Val) vu.Val {
 	o := v.Copy()
-	if o.K == vu.VStr && o.S == nonNFC {
-		o.S = nonNFCComposed
+	if o.K == vu.VStr {
+		o.S = norm.NFC.String(o.S)
 	}
 	for i := range o.Elems {
 		o.Elems[i] = composeNFC(o.Elems[i])
@@ -106,15 +110,18 @@ func composeNFC(v vu.Val) vu.Val {
 	return o
 }
 
+// structEq: structural equality of the abstract values (strings modulo NFC).
+func structEq(a, b vu.Val) bool { return vu.StructEq(composeNFC(a), composeNFC(b)) }
+
 func eqAttribution(a, b vu.Val, observed bool, t vu.Type) string {
 	switch {
-	case observed && !vu.StructEq(a, b) && vu.StructEq(composeNFC(a), composeNFC(b)):
+	case !observed && !vu.StructEq(a, b) && structEq(a, b):
 		return "string-nfc"
-	case modelEq(a, b, true, false) == observed && vu.StructEq(a, b) != observed:
+	case modelEq(a, b, true, false) == observed && structEq(a, b) != observed:
 		return "obj-subset"
-	case modelEq(a, b, false, true) == observed && vu.StructEq(a, b) != observed:
+	case modelEq(a, b, false, true) == observed && structEq(a, b) != observed:
 		return "range-inclusive"
-	case modelEq(a, b, true, true) == observed && vu.StructEq(a, b) != observed:
+	case modelEq(a, b, true, true) == observed && structEq(a, b) != observed:
 		return "obj-subset+range-inclusive"
 	}
 	return t.Shape()
@@ -155,7 +162,7 @@ func (j *judge) eq() {
 			}
 			j.evals++
 			e, pm, intr := isEqual(lib, vals[i], vals[k])
-			want := vu.StructEq(vals[i], vals[k])
+			want := structEq(vals[i], vals[k])
 			switch {
 			case pm != "":
 				j.fail(lib, "eq-panic", normMsg(pm), "a.IsEqual(b) panicked for a = %s, b = %s: %s", vals[i], vals[k], pm)
@@ -191,7 +198,7 @@ func (j *judge) eq() {
 				if obs[i][k] != obs[k][i] {
 					// attribute by the direction that disagrees with the structural contents
 					x, y, o := vals[i], vals[k], obs[i][k] == 1
-					if o == vu.StructEq(x, y) {
+					if o == structEq(x, y) {
 						x, y, o = vals[k], vals[i], obs[k][i] == 1
 					}
 					j.fail(lib, "eq-asymmetric", eqAttribution(x, y, o, j.p.T),
@@ -220,6 +227,6 @@ func (j *judge) eq() {
 	j.nontrivial = sawNe && sawEq
 	j.cov(lib + ":pairs")
 	if n > 1 {
-		j.sample = map[string]any{"route": "eq", "lib": lib, "type": j.p.T.Src(), "pool": n, "a": vals[0].String(), "b": vals[n-1].String(), "structEq": vu.StructEq(vals[0], vals[n-1])}
+		j.sample = map[string]any{"route": "eq", "lib": lib, "type": j.p.T.Src(), "pool": n, "a": vals[0].String(), "b": vals[n-1].String(), "structEq": structEq(vals[0], vals[n-1])}
 	}
 }
